@@ -12,13 +12,13 @@ import container as C
 from sx import Sym
 
 RULE = ("exhaustive matrix: 8 public mutators (add_block, remove_block, replace_block, five setters) and 22 public readers (incl. "
-        "iterating the object completely and an iterator advanced once and kept suspended while later calls run) x 7 "
+        "iterating the object completely and an iterator advanced once and kept suspended while later calls run) x 11 "
         "access modes (no context; allow_write without context, before and after a first context; read-only context; write "
         "context; context re-entered after a write context; context left by an exception), plus seeded interleavings "
         "(length<=15) of allow_write/enter/exit/mutators/readers; observed per call: raised?, file sha-256 changed?, "
         "handler.closed after implicit contexts; non-trivial = trace with a mutator in >=2 different modes; distinct by trace")
 ASSUMPTIONS = ["private flags are not compared, only their consequences; exception classes are not compared (the property says 'raises')",
-               "nested `with` on one object and OS-level handle state beyond handler.closed are outside the model"]
+               "OS-level handle state beyond handler.closed of the current handle is outside the model (the handle an outer `with` opened is dropped, not closed, by a nested __enter__)"]
 
 # (name, provides its own context when outside one, needs attributes that exist only after a first __enter__)
 READERS = [(n, True, False) for n in ["blocks", "get_block_type", "get_block_index", "getitem", "data3D", "force_and_torque",
@@ -38,6 +38,12 @@ MODES = {
     "write-context": ["allow", "enter"],
     "re-entered-after-write-context": ["allow", "enter", "exit", "enter"],
     "context-left-by-exception": ["allow", "enter", "exit-exc"],
+    # the same object entered again while a context is open (each __enter__ re-opens the file in the mode pending at that
+    # moment; each __exit__ leaves the context altogether and resets the mode)
+    "write-context-nested-in-a-plain-one": ["enter", "allow", "enter"],
+    "plain-context-after-a-nested-write-context-ended": ["enter", "allow", "enter", "exit"],
+    "nested-plain-enter-inside-a-write-context": ["allow", "enter", "enter"],
+    "after-both-exits-of-a-nested-pair": ["allow", "enter", "enter", "exit", "exit"],
 }
 
 
@@ -99,6 +105,7 @@ class Trace:
         self.in_ctx = False
         self.in_write = False
         self.entered_once = False
+        self.entered_explicitly = False
 
     def disk(self):
         return open(self.path, "rb").read()
@@ -121,6 +128,7 @@ class Trace:
             self.in_ctx = True
             self.in_write = self.armed
             self.entered_once = True
+            self.entered_explicitly = True
             cmd = [Sym("mode.op"), Sym("enter")]
         elif kind in ("exit", "exit-exc"):
             if kind == "exit":
@@ -263,10 +271,12 @@ def run(ctx):
                 if r < 0.18:
                     tr.do(("allow",))
                 elif r < 0.36:
-                    if tr.in_ctx:
+                    if tr.in_ctx and rng.random() < 0.75:
                         tr.do((rng.choice(["exit", "exit-exc"]),))
+                    elif not tr.in_ctx and tr.entered_explicitly and rng.random() < 0.15:
+                        tr.do(("exit",))            # the outer `with` of a nested pair ending after the inner one
                     else:
-                        tr.do(("enter",))
+                        tr.do(("enter",))           # (also while a context is open: nested `with` on one object)
                 elif r < 0.62:
                     rname, impl, needs = rng.choice(READERS)
                     tr.do(("read", rname, impl, needs))
